@@ -9,7 +9,7 @@ and Props/C20.lean proves (`decide`) that the model's functions compute exactly 
 the source that alters a row breaks the bridge theorem on the next run.
 
 Tables (input flags -> output):
-  getRows   (w, vol)              -> rbit after `obj.a`                      [Attribute.__get__]
+  getRows   (w, vol, wOther)      -> rbit after `obj.a` (wOther: another attribute is assigned)   [Attribute.__get__]
   setRows   (r, w)                -> (rbit, wbit) after `obj.a = v`          [Attribute.__set__]
   dbSetRows (loaded, same, r, w)  -> 0 = UnrepeatableReadError, else 1 + 2*[_dbvals_ == new] + [_vals_ == new]   [Entity._db_set_]
   saveRows  (r, w, vol, valNone)  -> (rbit, wbit, attr in _vals_, dbvals class 0 absent / 1 the written value / 2 the old value)
@@ -47,20 +47,23 @@ def introspect():
 
     for w in B:
         for vol in B:
-            with db_session:
-                obj = P[1]; name = 'q' if vol else 'p'; a = getattr(P, name)
-                if w: setattr(obj, name, 5)
-                obj._rbits_ = 0
-                getattr(obj, name)
-                out['get'].append([[w, vol], bool(obj._rbits_ & bit(a))])
-                rollback()
+            for wother in B:            # another attribute of the object has its write bit set: must not matter
+                with db_session:
+                    obj = P[1]; name = 'q' if vol else 'p'; a = getattr(P, name)
+                    if wother: obj.z = 9
+                    if w: setattr(obj, name, 5)
+                    obj._rbits_ = 0
+                    getattr(obj, name)
+                    out['get'].append([[w, vol, wother], bool(obj._rbits_ & bit(a))])
+                    rollback()
     for r in B:
         for w in B:
             with db_session:
                 obj = P[1]; a = P.p
                 if w: obj.p = 4
-                obj._rbits_ = bit(a) if r else 0
+                obj._rbits_ = (bit(a) if r else 0) | bit(P.io)      # the read bit of ANOTHER attribute must survive
                 obj.p = 5
+                if not obj._rbits_ & bit(P.io): out['errors'].append('__set__ cleared the read bit of another attribute')
                 out['set'].append([[r, w], [bool(obj._rbits_ & bit(a)), bool(obj._wbits_ & bit(a))]])
                 rollback()
     for loaded in B:
@@ -129,8 +132,8 @@ def render(f):
     L = ['/- GENERATED by harness/gen_c20.py by probing the real Attribute.__get__/__set__, Entity._db_set_, _save_updated_/_update_dbvals_,',
          '   _construct_optimistic_criteria_ of /repo (real objects, real db_session, in-memory SQLite) -- do not edit. -/',
          'namespace PonyVerif.Gen.OccTable', '']
-    L.append('/-- (wbit, volatile) ↦ read bit after `obj.a` -/')
-    L.append('def getRows : List ((Bool × Bool) × Bool) := [' + ', '.join('((%s, %s), %s)' % (lb(k[0]), lb(k[1]), lb(v)) for k, v in f['get']) + ']')
+    L.append('/-- (wbit, volatile, write bit of another attribute) ↦ read bit after `obj.a` -/')
+    L.append('def getRows : List ((Bool × Bool × Bool) × Bool) := [' + ', '.join('((%s, %s, %s), %s)' % (lb(k[0]), lb(k[1]), lb(k[2]), lb(v)) for k, v in f['get']) + ']')
     L.append('/-- (rbit, wbit) ↦ (rbit, wbit) after `obj.a = v` -/')
     L.append('def setRows : List ((Bool × Bool) × (Bool × Bool)) := [' + ', '.join('((%s, %s), (%s, %s))' % (lb(k[0]), lb(k[1]), lb(v[0]), lb(v[1])) for k, v in f['set']) + ']')
     L.append('/-- (loaded, same value, rbit, wbit) ↦ 0 UnrepeatableReadError | 1 + 2·[dbvals = new] + [vals = new] -/')
